@@ -287,7 +287,9 @@ Apply(c, s) ==
                                ELSE {<<{"ok"}, s>>}                       \* at most MaxSeq steps: still inside the program
     [] c.name \in {"query", "bt"} -> {<<IF live /\ ~s.wild THEN {"ok"} ELSE IF live THEN {"ok", "error"} ELSE {"error"}, s>>}
     [] c.name = "badslice"  -> {<<IF live THEN {"ok", "error"} ELSE {"error"}, s>>}
-    [] c.name = "badnum"    -> {<<{"error"}, s>>}
+    [] c.name = "badnum"    -> {<<{"ok", "error"}, s>>}       \* an over-long numeral is not a number: the grammar may read it
+                                                              \* as a function template that selects nothing (C08 only asks
+                                                              \* for "succeeds or yields an error"); nothing is removed
     [] c.name = "junk"      -> {<<{"error"}, s>>}
     [] c.name \in {"call", "watch"} -> {<<IF live THEN {"ok", "error"} ELSE {"error"}, s>>}
     [] c.name = "regpc"     -> {<<IF live THEN {"ok"} ELSE {"error"}, IF live THEN [s EXCEPT !.wild = TRUE] ELSE s>>}
